@@ -80,17 +80,25 @@ class ExactPool:
     def add(self, obj, model, origin):
         self.items.append({"obj": obj, "model": model, "snap": (cps_of(obj), obj.hom_deg), "origin": origin})
 
+    def add_lazy(self, obj, model, origin, expected_cps):
+        # not computed yet: the snapshot is what an eagerly built twin holds; the entry is checked from its first use on
+        self.items.append({"obj": obj, "model": model, "snap": (expected_cps, obj.hom_deg), "origin": origin, "lazy": True})
+
     def check(self, step):
         ctx = self.ctx
         breaks = set()
         scale = 1e-300
         for it in self.items:
+            if it.get("lazy") and not it["obj"].critical_pairs:
+                continue
             breaks |= model_breaks(it["model"])
             cur = cps_of(it["obj"])
             breaks |= {q[0] for d in cur for q in d}
             scale = max(scale, tv(cur))
         T = L.eval_points(breaks)
         for idx, it in enumerate(self.items):
+            if it.get("lazy") and not it["obj"].critical_pairs:
+                continue        # still not computed (never used so far)
             cur = cps_of(it["obj"])
             for d in cur:
                 ok = all(math.isfinite(q[0]) and math.isfinite(q[1]) for q in d)
@@ -112,7 +120,7 @@ class ExactPool:
 def exact_leaf(draw):
     if draw(st.integers(0, 2)) == 0:
         fam = draw(LD.bar_family(1, 5))
-        return {"kind": "dgm", "bars": fam["dgms"][0], "mode": fam["mode"]}
+        return {"kind": "dgm", "bars": fam["dgms"][0], "mode": fam["mode"], "lazy": draw(st.booleans())}
     return {"kind": "pl", "f": draw(LD.pl_function(1, 3))}
 
 
@@ -138,11 +146,17 @@ def make_leaf(ctx, pool, leaf):
         obj = ctx.call(PersLandscapeExact, critical_pairs=copy.deepcopy(leaf["f"]), hom_deg=0)
         pool.add(obj, ("pl", copy.deepcopy(leaf["f"])), "critical pairs")
         return True
-    obj = LD.exact_from_bars(ctx, leaf["bars"])
-    if LD.shortcut_fired(obj):
+    probe = LD.exact_from_bars(ctx, leaf["bars"])
+    if LD.shortcut_fired(probe):
         ctx.label("leaf_excluded_shortcut")
         return False
-    pool.add(obj, ("dgm", copy.deepcopy(leaf["bars"])), "diagram %s" % leaf["bars"])
+    if leaf.get("lazy"):
+        # built with compute=False: the landscape is only computed when it is first used - here, as an operand
+        ctx.label("lazy_leaf")
+        obj = ctx.call(PersLandscapeExact, dgms=[np.array(leaf["bars"], dtype=float)], hom_deg=0, compute=False)
+        pool.add_lazy(obj, ("dgm", copy.deepcopy(leaf["bars"])), "lazily computed diagram %s" % leaf["bars"], cps_of(probe))
+    else:
+        pool.add(probe, ("dgm", copy.deepcopy(leaf["bars"])), "diagram %s" % leaf["bars"])
     return True
 
 
@@ -297,6 +311,10 @@ def grid_leaf(draw):
         if zero_ends:
             r[0] = r[-1] = 0.0
         rows.append(r)
+    if draw(st.integers(0, 3)) == 0:
+        # integer-typed sample arrays (the form the repository's own tests and docstrings use)
+        rows = [[float(int(v)) for v in r] for r in rows]
+        return {"kind": "vals", "vals": rows, "grid": g, "int_dtype": True}
     return {"kind": "vals", "vals": rows, "grid": g}
 
 
@@ -328,8 +346,11 @@ def make_grid_leaf(ctx, pool, leaf):
         vals = np.array(leaf["vals"], dtype=float)
         if vals.ndim != 2 or vals.shape[1] != n or vals.shape[0] < 1:
             ctx.skip("malformed values (shrinker)")
-        obj = ctx.call(PersLandscapeApprox, start=start, stop=stop, num_steps=n, values=vals.copy(), hom_deg=0)
-        pool.add(obj, vals, "values on grid %s" % (GRIDS[leaf["grid"] % len(GRIDS)],))
+        given = vals.astype(np.int64) if leaf.get("int_dtype") else vals.copy()
+        if leaf.get("int_dtype"):
+            ctx.label("int_valued_leaf")
+        obj = ctx.call(PersLandscapeApprox, start=start, stop=stop, num_steps=n, values=given, hom_deg=0)
+        pool.add(obj, vals, "%s values on grid %s" % ("integer-typed" if leaf.get("int_dtype") else "float", GRIDS[leaf["grid"] % len(GRIDS)],))
         return True
     obj = ctx.call(PersLandscapeApprox, start=start, stop=stop, num_steps=n, dgms=[np.array(leaf["bars"], dtype=float)], hom_deg=0)
     if is_sentinel(obj):
